@@ -362,42 +362,8 @@ func runConverge(r *vs.Rand, i int, seed uint64, out *vs.Out) {
 	sc := buildScenario(r, cfg)
 	defer sc.w.close()
 	// is a desired name occupied by an object the parent cannot own? (excluded by the property)
-	foreign := false
-	var foreignKeys [][4]string
+	foreign, foreignKeys, deleting := foreignOccupants(sc)
 	p := sc.w.sim.GetObj(parentGroup, cfg.parentResource(), nsOfKey(sc.key), "p1")
-	puid := objStr(p, "metadata", "uid")
-	deleting := objStr(p, "metadata", "deletionTimestamp") != ""
-	for _, c := range cfg.Children {
-		for _, o := range sc.w.sim.List(c.group(), c.Resource) {
-			if !strings.HasPrefix(objStr(o, "metadata", "name"), "p1-") {
-				continue
-			}
-			mine := false
-			refs, _ := objMap(o, "metadata")["ownerReferences"].([]interface{})
-			hasController := false
-			for _, rf := range refs {
-				if m, ok := rf.(map[string]interface{}); ok && m["controller"] == true {
-					hasController = true
-					mine = m["uid"] == puid
-				}
-			}
-			lbl := objMap(o, "metadata", "labels")
-			sel := objMap(p, "spec", "selector", "matchLabels")
-			matches := true
-			for k, v := range sel {
-				if lbl[k] != v {
-					matches = false
-				}
-			}
-			if cfg.GenerateSelector {
-				matches = lbl["controller-uid"] == puid
-			}
-			if (hasController && !mine) || !matches || objStr(o, "metadata", "namespace") == "ns2" || objStr(o, "metadata", "deletionTimestamp") != "" {
-				foreign = true
-				foreignKeys = append(foreignKeys, [4]string{c.group(), c.Resource, objStr(o, "metadata", "namespace"), objStr(o, "metadata", "name")})
-			}
-		}
-	}
 	// most scenarios are made admissible for the property by taking the foreign occupants away again
 	if foreign && r.Chance(70) {
 		for _, k := range foreignKeys {
@@ -549,6 +515,50 @@ func runRollout(r *vs.Rand, i int, seed uint64, out *vs.Out, crash bool) {
 		"replicas": finalReplicas, "changeAt": changeAt, "secondChangeAt": second, "finalImage": final, "cutRound": cutRound, "cutK": cutK, "faultRound": faultRound, "deleteAt": deleteAt})
 }
 
+// foreignOccupants: objects under the names the hook uses (p1-*) that the parent cannot own - controlled by somebody else,
+// not matching its selector, in another namespace, or pending deletion. Convergence to the hook's desired children is
+// only claimed when no such object occupies a desired name.
+func foreignOccupants(sc *scenario) (bool, [][4]string, bool) {
+	cfg := sc.Cfg
+	foreign := false
+	var foreignKeys [][4]string
+	p := sc.w.sim.GetObj(parentGroup, cfg.parentResource(), nsOfKey(sc.key), "p1")
+	puid := objStr(p, "metadata", "uid")
+	deleting := objStr(p, "metadata", "deletionTimestamp") != ""
+	for _, c := range cfg.Children {
+		for _, o := range sc.w.sim.List(c.group(), c.Resource) {
+			if !strings.HasPrefix(objStr(o, "metadata", "name"), "p1-") {
+				continue
+			}
+			mine := false
+			refs, _ := objMap(o, "metadata")["ownerReferences"].([]interface{})
+			hasController := false
+			for _, rf := range refs {
+				if m, ok := rf.(map[string]interface{}); ok && m["controller"] == true {
+					hasController = true
+					mine = m["uid"] == puid
+				}
+			}
+			lbl := objMap(o, "metadata", "labels")
+			sel := objMap(p, "spec", "selector", "matchLabels")
+			matches := true
+			for k, v := range sel {
+				if lbl[k] != v {
+					matches = false
+				}
+			}
+			if cfg.GenerateSelector {
+				matches = lbl["controller-uid"] == puid
+			}
+			if (hasController && !mine) || !matches || objStr(o, "metadata", "namespace") == "ns2" || objStr(o, "metadata", "deletionTimestamp") != "" {
+				foreign = true
+				foreignKeys = append(foreignKeys, [4]string{c.group(), c.Resource, objStr(o, "metadata", "namespace"), objStr(o, "metadata", "name")})
+			}
+		}
+	}
+	return foreign, foreignKeys, deleting
+}
+
 var faultKinds = [][2]string{{"404", "NotFound"}, {"409", "Conflict"}, {"410", "Gone"}, {"422", "Invalid"}, {"500", "InternalError"}, {"504", "Timeout"}, {"409", "AlreadyExists"}}
 
 func runFaults(r *vs.Rand, i int, seed uint64, out *vs.Out) {
@@ -558,10 +568,20 @@ func runFaults(r *vs.Rand, i int, seed uint64, out *vs.Out) {
 	cfg.SSA = false
 	cfg.Customize = false
 	cfg.Related = nil
+	foreign := false
 	run := func(fault bool) ([]roundInfo, []interface{}) {
 		rr := vs.CaseRand(seed+7777, i)
 		sc := buildScenario(rr, cfg)
 		defer sc.w.close()
+		var fk [][4]string
+		foreign, fk, _ = foreignOccupants(sc)
+		if foreign && rr.Chance(70) {
+			// most scenarios are made admissible by taking the foreign occupants away (the same draw in both runs)
+			for _, k := range fk {
+				sc.w.sim.Remove(k[0], k[1], k[2], k[3])
+			}
+			foreign = false
+		}
 		var rounds []roundInfo
 		if fault {
 			if r.Chance(30) {
@@ -604,7 +624,7 @@ func runFaults(r *vs.Rand, i int, seed uint64, out *vs.Out) {
 	fr, fstore := run(true)
 	tr, tstore := run(false)
 	out.Line(vs.M{"kind": "rounds", "mode": "faults", "case": i, "seed": seed, "cfg": cfg, "rounds": fr, "twinRounds": tr,
-		"finalEqualsTwin": vs.MustJSON(fstore) == vs.MustJSON(tstore), "finalDigest": digest(fstore), "twinDigest": digest(tstore)})
+		"finalEqualsTwin": vs.MustJSON(fstore) == vs.MustJSON(tstore), "finalDigest": digest(fstore), "twinDigest": digest(tstore), "foreign": foreign})
 }
 
 var jsonTypes = []interface{}{nil, true, int64(0), int64(-3), int64(1) << 62, "str", []interface{}{}, []interface{}{nil}, map[string]interface{}{}, []interface{}{int64(1)}, map[string]interface{}{"x": int64(1)}}
